@@ -296,6 +296,11 @@ def check_C13(tier):
              rule="every pattern x string over bytes {a,b,*,\\} with |pat|<=%d, |str|<=%d, evaluated through "
                   "policy.Like and policy.FromIPLD; non-trivial = both pattern and string contain * or \\" % (mp, ms))
     c.replay("glob", r2.cases, rule="every pattern x string over {a,*} with |pat|<=%d, |str|<=%d" % ((6, 7) if q else (8, 9)))
+    # a third family: the NUL byte is a character like any other ("every other character stands for itself")
+    r3 = c.mc("Glob", "MC_C13.cfg", dict(Alphabet="{97, 0, 42, 92}", MaxPat=3 if q else 4, MaxStr=3 if q else 4, Deviations="{}", Emit="Emit"),
+              label="family {a, NUL, *, \\}")
+    c.replay("glob", r3.cases, rule="every pattern x string over {a, NUL, *, \\} with |pat|,|str|<=%d; each case also through "
+                                    "Like -> ToIPLD -> DAG-CBOR / DAG-JSON -> FromIPLD" % (3 if q else 4))
     # 3. code -> spec
     n = 3000 if q else 40000
     for k in range(1 if q else 4):
